@@ -71,7 +71,7 @@ CLAIMED.update({
             "Assumed: encoding/json round-trips a value of a type that passes the structural check (Unmarshal(Marshal(x)) == x; the library is not verified); the file system keeps the side-car files between runs; the modifies clause of UnmarshalAuditInfoJSONFile (it fills only the record it allocates) is assumed because json.Unmarshal works by reflection. The comparison of whole lineages across different run histories is a paper argument from these facts (induction over the DAG), not an obligation.",
             "3/C11"),
     "C19": ("Proof, for every stream length and every receive/send schedule of the component's own go-routine: ParamSource, FileSource, FileGlobber (all patterns, after its dependency stream ended), FileToParamsReader and CommandToParams put exactly the given / matching / read items on their out-port log, once each, in order; IPSelectorSync reads one item per in-port in lock step, considers every aligned tuple, and sends a tuple's members (each on the out-port named like its in-port) only if every member satisfies the predicate; FileSplitter writes every line read exactly once, in order, to the current part, closes/finalizes/sends a part when it holds LinesPerSplit lines and never more, numbers parts consecutively and finalizes a part before sending it; Concatenator appends the content of every arriving file, then a newline, to the file of its group and sends the outputs only after the input stream ended; ParamCombinator/FileCombinator read every in-port until it is closed, pass every port to combine, and send each resulting row in order on the out-port of its name. The Cartesian product itself (recursive combine) is NOT proved: a BOUNDED stand-in runs the real combine functions exhaustively for up to 3 ports x 3 items (420 inputs each) on every run; it is reported as BOUNDED and not counted among the discharged obligations.",
-            "Bounded, not proved: combine (see above). Assumed: the result of combine has only input keys and only valid items (assumed clauses of the trusted combine contracts), the scanner abstraction of bufio.Scanner, the write-log abstraction of os.File (WriteString/Write append to a log per file), filepath.Glob / ioutil.ReadFile as functions of their argument and the file-system epoch, the selection predicate is a function of the IP, every in-port name of selector/combinators has an out-port of the same name, closing the out-ports sends nothing (CloseAllOutPorts, trusted), a new group IP of the Concatenator has a record (assumecall). Not decided: that IPSelectorSync sends EVERY member of a passing tuple; byte-level content of the files on disk (kernel).",
+            "Bounded, not proved: combine (see above). Assumed: the result of combine has only input keys and only valid items (assumed clauses of the trusted combine contracts), the scanner abstraction of bufio.Scanner, the write-log abstraction of os.File (WriteString/Write append to a log per file), filepath.Glob / ioutil.ReadFile as functions of their argument and the file-system epoch, the selection predicate is a function of the IP, every in-port name of selector/combinators has an out-port of the same name, closing the out-ports sends nothing (CloseAllOutPorts, trusted), a new group IP of the Concatenator has a record (assumecall). That IPSelectorSync sends every member of a passing tuple is decided by a structural obligation (the sending loop has no early exit) plus a per-iteration obligation (every visit sends once). Not decided: byte-level content of the files on disk (kernel).",
             "3/C19"),
 })
 
